@@ -657,7 +657,9 @@ def _concretize(system, op):
     else:
         Vn = np.array(op['vects'], dtype=float)
     og = op.get('origin', 'keep')
-    if isinstance(og, str) and og == 'follow' and 'right' in op:
+    if isinstance(og, str) and og == 'default':            # origin not passed: Box.set resets it to (0, 0, 0)
+        on = np.zeros(3)
+    elif isinstance(og, str) and og == 'follow' and 'right' in op:
         on = o @ np.array(op['right'], dtype=float)
     elif isinstance(og, str):
         on = o
@@ -707,14 +709,15 @@ def _apply(system, c):
         system.box.vects = V
         return None
     how, sc = c['how'], bool(c['scale'])
+    kw = {} if c.get('origin') == 'default' else {'origin': o}
     if how == 'vects':
-        system.box_set(vects=V, origin=o, scale=sc)
+        system.box_set(vects=V, scale=sc, **kw)
     elif how == 'avect':
-        system.box_set(avect=V[0], bvect=V[1], cvect=V[2], origin=o, scale=sc)
+        system.box_set(avect=V[0], bvect=V[1], cvect=V[2], scale=sc, **kw)
     elif how == 'lengths':
-        system.box_set(lx=V[0, 0], ly=V[1, 1], lz=V[2, 2], xy=V[1, 0], xz=V[2, 0], yz=V[2, 1], origin=o, scale=sc)
+        system.box_set(lx=V[0, 0], ly=V[1, 1], lz=V[2, 2], xy=V[1, 0], xz=V[2, 0], yz=V[2, 1], scale=sc, **kw)
     elif how == 'box.set':                      # only generated with scale False
-        system.box.set(vects=V, origin=o)
+        system.box.set(vects=V, **kw)
     else:
         raise cm.InfraError('unknown box_set form ' + how)
     return None
@@ -799,7 +802,15 @@ def _corr_hist(ctx, hists):
         ctx.extra['hist_steps'] = ctx.extra.get('hist_steps', 0) + len(recs)
         ok = True
         for k, (rec, sec) in enumerate(zip(recs, secs)):
-            if not _check_step(ctx, h, k, rec, sec):
+            try:
+                good = _check_step(ctx, h, k, rec, sec)
+            except cm.InfraError:
+                raise
+            except Exception as e:  # noqa  an implementation state the comparison cannot digest is a disagreement
+                ctx.disagree('hist:uncomparable', f'history {_hist_name(h)} step {k}: {type(e).__name__}: {e}',
+                             {'op': 'hist', 'hist': _pub(h), 'step': k})
+                good = False
+            if not good:
                 ok = False
                 break
         if h['_chain']:
@@ -856,6 +867,9 @@ def _check_step(ctx, h, k, rec, sec):
     tag, parts = _split(sec)
     exact = rec['exact']
     Vf, of = _fm(b['vects']), _fv(b['origin'])
+    if _det(Vf) == 0:
+        ctx.disagree('hist:singular', f'{label}: the object holds the singular cell {b["vects"]}', replay)
+        return False
     kap = _kappa(Vf)
     nV = _normV(b['vects'])
     omax = max(abs(x) for x in b['origin'])
@@ -1034,6 +1048,8 @@ def _far_atoms(rng, case, lo=1.0, hi=3.7):
                 s.append(rng.randint(1, 7) / 8 if grid else rng.uniform(0.05, 0.95))
             else:
                 m = 10 ** rng.uniform(lo, hi if case['pbc'][k] else min(hi, 2.0))
+                if not grid and all(case['pbc']) and rng.random() < 0.08:
+                    m = 10 ** rng.uniform(6, 14)           # "arbitrarily far": beyond the int32 range of image flags
                 s.append(rng.choice([-1, 1]) * (float(int(m)) + rng.randint(0, 7) / 8 if grid else m))
         extra.append((np.array(s) @ V + o).tolist())
     case['pos'] = case['pos'] + extra
@@ -1062,14 +1078,15 @@ def _strain(rng, lower=False):
     return (np.eye(3) + E).tolist()
 
 
-def _box_op(rng, regime, kind):
+def _box_op(rng, regime, kind, far=False):
     import numpy as np
     scale = rng.random() < 0.55
     how = rng.choice(['vects', 'vects', 'avect', 'lengths'] + ([] if scale else ['box.set']))
     if regime == 'grid':
         r = rng.random()
+        og = rng.choice(['keep', 'keep', 'keep', 'default'])
         if r < 0.2:
-            return {'op': 'boxset', 'same': True, 'scale': scale, 'how': how}
+            return {'op': 'boxset', 'same': True, 'scale': scale, 'how': how, 'origin': og}
         if r < 0.55:
             # row permutation / negation / power-of-two scaling: the state stays on the grid (handedness may flip)
             M = np.eye(3)
@@ -1080,7 +1097,7 @@ def _box_op(rng, regime, kind):
                 M[rng.randint(0, 2)] *= -1
             else:
                 M = np.diag([rng.choice([1, 2, 0.5, 1, 4]) for _ in range(3)]).astype(float)
-            return {'op': 'boxset', 'left': M.tolist(), 'scale': scale, 'how': how, 'gridkeep': True}
+            return {'op': 'boxset', 'left': M.tolist(), 'scale': scale, 'how': how, 'gridkeep': True, 'origin': og}
         # small dyadic shear / stretch: exactly representable input, tiny change of the cell
         M = np.eye(3)
         e = rng.choice([-1, 1]) * 2.0 ** -rng.choice([4, 12, 17, 20, 24, 27, 30, 34, 40])
@@ -1095,10 +1112,12 @@ def _box_op(rng, regime, kind):
         return {'op': 'boxset', 'same': True, 'scale': scale, 'how': how}
     if r < 0.16:
         V, _ = _float_cell(rng)
+        if far and not scale:        # a fresh cell under fixed Cartesian positions would turn "far along a periodic
+            scale, how = True, 'vects'   # axis" into "far along any axis" (see the note at setpbc below)
         return {'op': 'boxset', 'vects': V.tolist(), 'scale': scale, 'how': how,
                 'origin': [rng.uniform(-10, 10) for _ in range(3)]}
     lower = kind in ('normal', 'ortho') and rng.random() < 0.7
-    og = rng.choice(['keep', 'keep', 'follow'])
+    og = rng.choice(['keep', 'keep', 'follow', 'default'])
     if rng.random() < 0.15:
         return {'op': 'setvects', 'right': _strain(rng, lower)}
     return {'op': 'boxset', 'right': _strain(rng, lower), 'scale': scale, 'how': how if lower else
@@ -1113,6 +1132,10 @@ def _gen_hist(rng, regime):
         case = _far_atoms(rng, case, hi=3.0 if regime == 'grid' else 3.7)
     kind = case.get('kind')
     ops = []
+    import numpy as np
+    srel = np.abs(np.linalg.solve(np.array(case['vects']).T, (np.array(case['pos']) - np.array(case['origin'])).T).T)
+    free = [bool(srel[:, k].max() <= 100.0) for k in range(3)]
+    far = bool(srel.max() > 100.0)
     # opening: the cache is warmed (or not) before the cell is touched
     first = rng.choice(['spos', 'wrap', 'norm', None, 'spos', 'wrap'])
     if first:
@@ -1120,7 +1143,7 @@ def _gen_hist(rng, regime):
     for _ in range(rng.randint(1, 4)):
         r = rng.random()
         if r < 0.45:
-            ops.append(_box_op(rng, regime, kind))
+            ops.append(_box_op(rng, regime, kind, far))
         elif r < 0.55:
             ops.append({'op': 'spos'})
         elif r < 0.75:
@@ -1134,9 +1157,11 @@ def _gen_hist(rng, regime):
                         'origin': [cm.dyadic(rng, -8, 8, 2) for _ in range(3)] if regime == 'grid'
                         else [rng.uniform(-10, 10) for _ in range(3)]})
         else:
-            ops.append({'op': 'setpbc', 'pbc': list(rng.choice(PBCS))})
+            # an axis is only freed when no atom is far out along it: lengthening a cell vector by more than 1e9
+            # makes the clean-up of the Box.vects setter zero the other vectors (singular cell, see docs/C05.md)
+            ops.append({'op': 'setpbc', 'pbc': [bool(p or not free[k]) for k, p in enumerate(rng.choice(PBCS))]})
     if not any(o['op'] in ('boxset', 'setvects') for o in ops):
-        ops.insert(rng.randint(1 if first else 0, len(ops)), _box_op(rng, regime, kind))
+        ops.insert(rng.randint(1 if first else 0, len(ops)), _box_op(rng, regime, kind, far))
     # closing: look at the object again
     ops.append({'op': rng.choice(['wrap', 'wrap', 'norm', 'spos'])})
     if rng.random() < 0.5:
@@ -1203,6 +1228,8 @@ def _wrap_clauses_sys(system, grid, fail):
     import numpy as np
     before = _snap(system)
     V, o = _fm(before['vects']), _fv(before['origin'])
+    if _det(V) == 0:
+        return fail('wrap:box-singular', f'the cell {before["vects"].tolist()} is singular before wrap is called')
     Vi = _inv(V)
     pbc = [bool(p) for p in before['pbc']]
     old = [_fv(p) for p in before['props']['pos']]
@@ -1367,6 +1394,8 @@ def _norm_clauses_sys(system, fail):
     if any(np.shares_memory(new.atoms.view[k], system.atoms.view[k]) for k in new.atoms.view.keys()):
         return fail('normalize:shares-memory', 'normalized system shares atom data with its input')
     V, o = _fm(before['vects']), _fv(before['origin'])
+    if _det(V) == 0:
+        return fail('normalize:box-singular', f'normalize accepted the singular cell {before["vects"].tolist()}')
     left = _det(V) < 0
     if left:                                   # "a left-handed cell first having its third vector reversed"
         o = [a + b for a, b in zip(o, V[2])]
@@ -1494,7 +1523,13 @@ def search(ctx, broken):
     for it in range(ctx.n(150, 2500) * mult):
         h = _gen_hist(rng, 'grid' if it % 3 == 0 else 'float')
         ctx.stats.case('oracle:history', (_hist_name(h), _line('hist', h['case'])))
-        _hist_clauses(ctx, h)
+        try:
+            _hist_clauses(ctx, h)
+        except cm.InfraError:
+            raise
+        except Exception as e:  # noqa  (degenerate state produced by the implementation: NaN, overflow, ...)
+            ctx.violate('history:degenerate-state', f'history {_hist_name(h)}: the object reached a state on which the '
+                        f'clauses cannot be evaluated ({type(e).__name__}: {e})', {'op': 'hist', 'hist': _pub(h)})
     ctx.extra['bound_used'] = {k: round(v, 4) for k, v in sorted(MARGIN.items())}
 
 
